@@ -3,6 +3,7 @@ package gosym
 // The harness API (package zzverif) as engine intrinsics.
 
 import (
+	"encoding/json"
 	"os"
 	"crypto/sha256"
 	"encoding/hex"
@@ -727,6 +728,132 @@ func (e *Engine) scenario(s *State, cm *CachedModel, ob string) *Scenario {
 					}
 					sc.Nondet[tag] = map[string]interface{}{"hex": fmt.Sprintf("%x", str)}
 				}
+			}
+		}
+	}
+	// inputs the model tied to a hash value (file-tree owner ids, access ids, ...): recomputed with the
+	// real hash functions from the final input values instead of being copied from the abstract model
+	{
+		env := &realEnv{vars: map[int]MVal{}, memo: map[int]MVal{}}
+		for _, en := range s.W.Nondet {
+			if en.T.Op != "var" {
+				continue
+			}
+			switch v := sc.Nondet[en.Tag].(type) {
+			case map[string]interface{}:
+				if hx, ok := v["hex"].(string); ok {
+					bsv, _ := hex.DecodeString(hx)
+					env.vars[en.T.ID] = mvS(string(bsv))
+				}
+			case int64:
+				env.vars[en.T.ID] = mvI(big.NewInt(v))
+			case bool:
+				env.vars[en.T.ID] = mvB(v)
+			}
+		}
+		apps := hashApps(s.pcTerms())
+		// several rounds: an input recomputed from a hash may feed another hash
+		for round := 0; round < 3 && len(apps) > 0; round++ {
+			changed := false
+			for _, en := range s.W.Nondet {
+				if en.T.Op != "var" || en.T.Sort != SStr {
+					continue
+				}
+				mv, ok := cm.Eval(en.T)
+				if !ok || mv.S == nil || len(*mv.S) < 32 {
+					continue
+				}
+				for _, app := range apps {
+					av, ok := cm.Eval(app)
+					if !ok || av.S == nil || *av.S != *mv.S {
+						continue
+					}
+					// the app must not depend on the variable itself
+					dep := false
+					for _, x := range Symbols(app) {
+						if x == en.T.ID {
+							dep = true
+						}
+					}
+					if dep {
+						continue
+					}
+					env.memo = map[int]MVal{}
+					if rv, ok := env.eval(app); ok && rv.S != nil {
+						old := env.vars[en.T.ID]
+						if old.S == nil || *old.S != *rv.S {
+							env.vars[en.T.ID] = rv
+							sc.Nondet[en.Tag] = map[string]interface{}{"hex": fmt.Sprintf("%x", *rv.S)}
+							changed = true
+						}
+						break
+					}
+				}
+			}
+			if !changed {
+				break
+			}
+		}
+		// texts decoded as JSON maps: the model only fixes jsonhas/jsonval at the keys looked up; the
+		// concrete text is the JSON object holding exactly those entries
+		{
+			type kv struct{ k, v string }
+			byText := map[int][]kv{}
+			valid := map[int]bool{}
+			seenText := map[int]bool{}
+			for _, app := range ufApps(s.pcTerms(), "jsonhas", "jsonvalid") {
+				txt := app.Args[0]
+				if txt.Op != "var" {
+					continue
+				}
+				seenText[txt.ID] = true
+				if app.SV == "jsonvalid" {
+					if bv, ok := cm.Eval(app); ok && bv.B != nil {
+						valid[txt.ID] = *bv.B
+					}
+					continue
+				}
+				hv, ok := cm.Eval(app)
+				if !ok || hv.B == nil || !*hv.B {
+					continue
+				}
+				env.memo = map[int]MVal{}
+				kvv, ok := env.eval(app.Args[1])
+				if !ok || kvv.S == nil {
+					if kvv, ok = cm.Eval(app.Args[1]); !ok || kvv.S == nil {
+						continue
+					}
+				}
+				val := ""
+				if vv, ok := cm.Eval(App("jsonval", txt, app.Args[1])); ok && vv.S != nil {
+					val = *vv.S
+				}
+				byText[txt.ID] = append(byText[txt.ID], kv{*kvv.S, val})
+			}
+			for _, en := range s.W.Nondet {
+				if en.T.Op != "var" || !seenText[en.T.ID] {
+					continue
+				}
+				if v, ok := valid[en.T.ID]; ok && !v {
+					continue
+				}
+				m := map[string]string{}
+				for _, e := range byText[en.T.ID] {
+					m[e.k] = e.v
+				}
+				js, _ := json.Marshal(m)
+				env.vars[en.T.ID] = mvS(string(js))
+				sc.Nondet[en.Tag] = map[string]interface{}{"hex": fmt.Sprintf("%x", js)}
+			}
+		}
+		// store keys of materialised records are recomputed from the (possibly updated) inputs as well
+		for _, en := range s.W.Nondet {
+			if en.Kind != "storekey" {
+				continue
+			}
+			env.memo = map[int]MVal{}
+			if rv, ok := env.eval(en.T); ok && rv.S != nil {
+				sc.Nondet[en.Tag] = map[string]interface{}{"hex": fmt.Sprintf("%x", *rv.S)}
 			}
 		}
 	}
